@@ -921,11 +921,15 @@ class ConstructedPayloadDecoderBase(AbstractConstructedPayloadDecoder):
             idx = 0
 
             while True:  # loop over components
-                if len(namedTypes) <= idx:
+                if not namedTypes:
                     asn1Spec = None
 
                 elif isSetType:
                     asn1Spec = namedTypes.tagMapUnique
+
+                elif len(namedTypes) <= idx:
+                    # all components seen, end-of-octets must follow
+                    asn1Spec = None
 
                 else:
                     try:
